@@ -180,6 +180,21 @@ def run(ctx):
                     text = ("<!DOCTYPE html><html><head><title>" + "t" * pad + "</title>" + m +
                             "</head><body><p title='Привет'>héllo — Ж</p></body></html>")
                     roundtrip(ctx, text, enc, omit)
+    # characters the output encoding cannot express become character references: every character that has a named
+    # reference (with and without a legacy semicolon-less spelling) x what follows it x text / attribute value
+    from html5lib.constants import entities
+    legacy = sorted({v for k, v in entities.items() if not k.endswith(";") and len(v) == 1 and ord(v) > 127})
+    other = sorted({v for k, v in entities.items() if len(v) == 1 and ord(v) > 127} - set(legacy))
+    picks = legacy + ctx.rng.sample(other, min(len(other), ctx.scale(40, 400)))
+    followers = ["b", "Z", "7", "=", ";", " ", "", "&", "#"]
+    for j, ch in enumerate(picks):
+        f = followers[j % len(followers)] if ctx.tier != "thorough" else None
+        for fo in ([f] if f is not None else followers):
+            text = ("<!DOCTYPE html><html><head><title>%s%sx</title></head><body><p title=\"a%s%sc\" id=%s%s>%s%st</p></body></html>"
+                    % (ch, fo if fo != "&" else "", ch, fo.replace("&", "&amp;"), ch, fo if fo not in (" ", "", "&", "=", ";") else "q",
+                       ch, fo.replace("&", "&amp;")))
+            for enc in (("ascii", "koi8-r") if ctx.tier != "thorough" else ("ascii", "koi8-r", "iso-8859-7", "windows-1251", "shift_jis")):
+                roundtrip(ctx, text, enc, bool(j % 2))
     if ctx.driver_ok:
         ctx.compare("inject", reqs, reals, lean.run_driver(reqs))
 
